@@ -41,10 +41,12 @@ pub enum Mod {
     Undrained,
     /// the last peer only ticks every second round
     UnevenTicks,
+    /// local inputs handed over in descending handle order (1) or twice, a wrong value first (2)
+    InputStyle(u8),
 }
 
-pub const CORE_MENU: &[Mod] = &[Mod::Desync(1), Mod::NoChecksum, Mod::Undrained, Mod::Desync(3), Mod::UnevenTicks];
-pub const NET_MENU: &[Mod] = &[Mod::Desync(1), Mod::NoChecksum, Mod::Desync(3)];
+pub const CORE_MENU: &[Mod] = &[Mod::Desync(1), Mod::NoChecksum, Mod::InputStyle(2), Mod::Undrained, Mod::Desync(3), Mod::UnevenTicks, Mod::InputStyle(1)];
+pub const NET_MENU: &[Mod] = &[Mod::Desync(1), Mod::NoChecksum, Mod::InputStyle(2), Mod::Desync(3), Mod::InputStyle(1)];
 
 fn apply_mod(s: &Scenario, m: Mod) -> Option<Scenario> {
     let mut x = s.clone();
@@ -67,6 +69,12 @@ fn apply_mod(s: &Scenario, m: Mod) -> Option<Scenario> {
             }
             x.peers.iter_mut().for_each(|p| p.drain = false);
             x.specs.iter_mut().for_each(|p| p.drain = false);
+        }
+        Mod::InputStyle(st) => {
+            if s.peers.iter().any(|p| p.input_style != 0) || (st == 1 && s.peers.iter().all(|p| p.locals.len() < 2)) {
+                return None;
+            }
+            x.peers.iter_mut().for_each(|p| p.input_style = st);
         }
         Mod::UnevenTicks => {
             if s.peers.len() < 2 || s.peers.iter().any(|p| p.tick_every != 1 || p.use_wait) || !s.scripted_stalls.is_empty() {
